@@ -362,6 +362,14 @@ pub fn run(r: &mut Runner) -> &'static str {
         .into();
     let n = r.n(200_000, 3_000_000);
     r.random("c11.slices", n, 160, &gen_slice, &|x: &Vec<u8>, st: &mut Stats| crate::engine::in_arena(x, |v| judge_slice(v, st)));
+    // chains: a section, then sections one small edit away (same length, same address in the reused read buffer)
+    let n = r.n(40_000, 800_000);
+    r.random("c11.chains", n, 260, &|t| gen::gen_chain(t, &gen_slice), &|c: &crate::engine::Chain, st: &mut Stats| {
+        for x in &c.0 {
+            crate::engine::in_arena(x, |v| judge_slice(v, st))?;
+        }
+        Ok(())
+    });
     let n = r.n(100_000, 2_000_000);
     r.random("c11.headers", n, 200, &crate::props::c14::gen_case, &|x: &Vec<u8>, st: &mut Stats| crate::engine::in_arena(x, |v| judge_header(v, st)));
 
